@@ -298,8 +298,18 @@ class SpecBuiltins:
         (g,), fr = self._args(it, node, fr)
         from .tys import VGen
         if isinstance(g, VGen) and g.kind == "genexp":
-            return it.cdb.builtins.list_comp(it, g.node, g.frame)
+            return it.cdb.builtins.list_comp(it, g.node, g.frame, spec_mode=True)
         return it.iter_to_seq(g, fr)
+
+    def s_as_list(self, it, node, fr):
+        """The list payload of a union value (meaningful where isinstance(v, list) holds)."""
+        (v,), fr = self._args(it, node, fr)
+        if isinstance(v, SV) and isinstance(v.ty, TUnion):
+            for i, a in enumerate(v.ty.alts):
+                if isinstance(a, TSeq):
+                    return SV(a, v.ty.proj(i, v.term))
+            raise Unsupported("as_list: union without a list alternative")
+        return it.seq_of(v)
 
     def s_result(self, it, node, fr):
         raise Unsupported("result is a name, not a call")
